@@ -25,7 +25,7 @@ sh('ninja -C _build > /dev/null', cwd=wt)
 r1 = sh('sh seed/run_demo.sh', cwd=wt, timeout=3000)
 meta['demo_with_change_rc'] = r1.returncode
 # 2. ctest summary with the change (re-run the full suite ourselves)
-r2 = sh('ctest --test-dir _build -j8 --timeout 900 2>&1 | tail -120', cwd=wt, timeout=7200)
+r2 = sh('ctest --test-dir _build -j8 --timeout 2400 2>&1 | tail -120', cwd=wt, timeout=7200)
 passed = None
 for l in r2.stdout.splitlines():
     if 'tests passed' in l:
@@ -37,11 +37,11 @@ meta['baseline_tests_failing_with_change'] = sorted(set(failed) & stable)
 # a baseline test that failed once under load is re-run alone (5 times) before it counts
 still = []
 for t in meta['baseline_tests_failing_with_change']:
-    rr = sh("ctest --test-dir _build -R '^%s$' --timeout 900 --repeat until-fail:5 2>&1 | tail -5" % t.replace('/', '.'), cwd=wt, timeout=7200)
+    rr = sh("ctest --test-dir _build -R '^%s$' --timeout 3000 --repeat until-fail:2 2>&1 | tail -5" % t.replace('/', '.'), cwd=wt, timeout=7200)
     okl = [l for l in rr.stdout.splitlines() if '100% tests passed' in l]
     if not okl:
         still.append(t)
-meta['baseline_tests_failed_once_then_passed_5x_alone'] = sorted(set(meta['baseline_tests_failing_with_change']) - set(still))
+meta['baseline_tests_failed_once_then_passed_2x_alone'] = sorted(set(meta['baseline_tests_failing_with_change']) - set(still))
 meta['baseline_tests_failing_with_change'] = still
 # 3. without change
 sh('git apply -R seed/patch.diff', cwd=wt)
@@ -58,12 +58,15 @@ for fn in os.listdir(seed):
         shutil.copy(p, os.path.join(dst, fn))
 # 5. our checks against the change
 res = {}
+import fcntl
+_lk = open('/var/tmp/verif-repo.lock', 'w'); fcntl.flock(_lk, fcntl.LOCK_EX)   # /repo is edited in place: one editor at a time
 a = sh('git -C /repo apply %s' % os.path.join(dst, 'patch.diff'))
 if a.returncode == 0:
     for c in checks:
         r = sh('./check %s --tier quick' % c, cwd=V)
         res[c] = {'rc': r.returncode, 'violations': [l for l in r.stdout.splitlines() if 'rule R' in l][:8]}
 sh('git -C /repo checkout -- .')
+fcntl.flock(_lk, fcntl.LOCK_UN)
 meta['checks_against_change'] = res
 meta['confirmed'] = (meta['demo_with_change_rc'] != 0 and meta['demo_without_change_rc'] == 0 and not meta['baseline_tests_failing_with_change'])
 meta['commands'] = log
